@@ -4,11 +4,15 @@ C15 — Modules load once, export read-only names, and cycles are reported.
 Property theorems about the loader model (Model/Modules.lean, mirroring the repaired Go code) against the manual's
 reading (Spec/ModuleSem.lean).  All of them quantify over every finite file table, every library table, every order
 oracle (Go map iteration at the two `range` sites) and every amount of call fuel; `run` is `LoadFile(main).Execute`.
+`Variant.repaired` is the tree with fix 420e70b (a module name with a part that is not a plain file name is error 60);
+the theorems are about it.  `Variant.pinned` is the finder before that fix: the examples about it are the checked
+NEGATIONS of `valid_name_path_injective`, `path_stays_under_root` and `body_runs_at_most_once` on the pinned tree.
 Helper lemmas live in Proofs/Modules*.lean.
 -/
 import ZnVerif.Proofs.ModulesPath
 import ZnVerif.Proofs.ModulesView
 import ZnVerif.Proofs.ModulesFuel
+import ZnVerif.Proofs.ModulesFile
 
 namespace ZnVerif.Properties.C15
 open ZnVerif.Model.Modules
@@ -18,20 +22,25 @@ open ZnVerif.Proofs.ModulesDfs
 
 /-! ## name → path -/
 
-/-- `A-B-C` resolves to `A/B/C.zn` below the main file's directory: the spec's `resolve` says so, and the finder of
-    `LoadFile` looks at exactly that path (found ⇒ that file's source, absent ⇒ ModuleNotFound). -/
+/-- `A-B-C` resolves to `A/B/C.zn` below the main file's directory when A, B, C are plain file names: the spec's `resolve`
+    says so, and the finder of `LoadFile` looks at exactly that path (found ⇒ that file's source, absent ⇒
+    ModuleNotFound).  (`hfile` is new with fix 420e70b: before it the statement held for the model without it, because
+    the model did not describe `filepath.Join`'s cleaning — see `pinned_names_share_a_file` for what the code did.) -/
 theorem path_resolution (files : Files) (segs : List Name) (hne : segs ≠ []) (hplain : ∀ s, s ∈ segs → chDash ∉ s)
+    (hfile : ∀ s, s ∈ segs → plainSegment s = true)
     (hcustom : (parseLibName (joinDash segs)).libType = .custom) :
     resolve (joinDash segs) = .file (withExt segs) ∧
-    finder files (parseLibName (joinDash segs)) =
+    finder .repaired files (parseLibName (joinDash segs)) =
       (match assoc (withExt segs) files with
        | some s => .src s
        | none => .notFound) := by
   have hseg : segments (joinDash segs) = segs := by
     rw [segments_eq_splitOn]; exact splitOn_joinDash segs hne hplain
+  have hpn : plainName (joinDash segs) = true := by
+    unfold plainName; rw [hseg]; exact List.all_eq_true.2 hfile
   constructor
-  · rw [resolve_custom hcustom, hseg]
-  · rw [finder_custom files hcustom, hseg]
+  · rw [resolve_custom hcustom, hpn, hseg]; rfl
+  · rw [finder_custom files hcustom, hpn, hseg]
     cases assoc (withExt segs) files <;> rfl
 
 /-- the path is the directory segments followed by the last segment with `.zn` appended -/
@@ -44,14 +53,97 @@ theorem path_shape : ∀ (segs : List Name) (h : segs ≠ []),
     rw [ih]
     simp
 
-/-- for every module name the model's finder and the spec's `resolve` agree -/
+/-- for every module name the model's finder and the spec's `resolve` agree: a name whose parts are all plain file names
+    is looked up at `A/B/C.zn`, any other name denotes no module -/
 theorem finder_agrees_with_spec (files : Files) (n : Name) (hc : (parseLibName n).libType = .custom) :
-    resolve n = .file (withExt (segments n)) ∧
-    finder files (parseLibName n) =
-      (match assoc (withExt (segments n)) files with
-       | some s => .src s
-       | none => .notFound) :=
+    resolve n = (if plainName n then .file (withExt (segments n)) else .nothing) ∧
+    finder .repaired files (parseLibName n) =
+      (if plainName n then
+        match assoc (withExt (segments n)) files with
+        | some s => .src s
+        | none => .notFound
+      else .notFound) :=
   ⟨resolve_custom hc, finder_custom files hc⟩
+
+/-- the test the repaired `LoadFile` makes on the parts of a name (`part == "" || part == "." || part == ".." ||
+    strings.ContainsAny(part, "/\\")` rejects) is the spec's "every part is a plain file name" -/
+theorem validity_test_is_plain_name (n : Name) (hc : (parseLibName n).libType = .custom) :
+    validParts (parseLibName n).libPath = plainName n := by
+  rw [parseLibName_custom_path hc]; exact validParts_eq_plainName n
+
+/-- the path a name denotes for the finder is the path the spec gives it -/
+theorem resolveName_agrees_with_spec (n : Name) (p : Path) : resolveName .repaired n = some p ↔ resolve n = .file p := by
+  rcases libType_cases n with hty | hty
+  · rw [resolveName_std hty]
+    have hl := (isLibName_iff n).2 hty
+    unfold isLibName at hl
+    unfold resolve
+    split
+    · simp
+    · simp at hl
+  · rw [resolveName_custom hty, resolve_custom hty]
+    cases plainName n <;> simp
+
+/-- Two valid names resolve to the same path iff they are the same name — for all names: no file has two names. -/
+theorem valid_name_path_injective (a b : Name) (pa pb : Path) (ha : resolveName .repaired a = some pa)
+    (hb : resolveName .repaired b = some pb) : pa = pb ↔ a = b := by
+  constructor
+  · intro h; subst h; exact resolveName_repaired_inj ha hb
+  · intro h; subst h; rw [ha] at hb; injection hb
+
+/-- the same in the spec's terms -/
+theorem valid_name_path_injective_spec (a b : Name) (pa pb : Path) (ha : resolve a = .file pa)
+    (hb : resolve b = .file pb) : pa = pb ↔ a = b :=
+  valid_name_path_injective a b pa pb ((resolveName_agrees_with_spec a pa).2 ha) ((resolveName_agrees_with_spec b pb).2 hb)
+
+/-- The resolved file lies under the main file's directory: the path is not empty and no component of it is `..` (nor
+    `.`, empty, or containing a separator) — every component is a plain directory or file name. -/
+theorem path_stays_under_root (n : Name) (p : Path) (h : resolveName .repaired n = some p) :
+    p ≠ [] ∧ ∀ c, c ∈ p → c ≠ dotdot ∧ PlainComp c := by
+  obtain ⟨h1, h2⟩ := resolveName_repaired_plain h
+  exact ⟨h1, fun c hc => ⟨(h2 c hc).2.2.1, h2 c hc⟩⟩
+
+/-- … whatever the file table holds (also entries outside that directory): a source the finder returns is the table's
+    entry at a path of plain components -/
+theorem finder_reads_under_root (files : Files) (n : Name) (s : ModuleSrc)
+    (h : finder .repaired files (parseLibName n) = .src s) :
+    ∃ p, resolveName .repaired n = some p ∧ assoc p files = some s ∧ ∀ c, c ∈ p → c ≠ dotdot ∧ PlainComp c := by
+  rcases libType_cases n with hty | hty
+  · have : finder .repaired files (parseLibName n) = .emptySrc := by unfold finder; rw [hty]
+    rw [this] at h; cases h
+  · rw [finder_custom files hty] at h
+    cases hp : plainName n with
+    | false => rw [hp] at h; simp at h
+    | true =>
+      rw [hp] at h
+      simp only [if_true] at h
+      have hr : resolveName .repaired n = some (withExt (segments n)) := by rw [resolveName_custom hty, hp]; rfl
+      cases hs : assoc (withExt (segments n)) files with
+      | none => rw [hs] at h; cases h
+      | some s' =>
+        rw [hs] at h; injection h with h; subst h
+        exact ⟨_, hr, hs, (path_stays_under_root n _ hr).2⟩
+
+/-- for a name the repaired code accepts, `filepath.Join`'s cleaning is the identity, so the fix changes nothing for
+    such names: the pinned finder (join and clean) and the repaired one (test, then join) answer alike -/
+theorem fix_changes_only_rejected_names (files : Files) (n : Name) (hc : (parseLibName n).libType = .custom)
+    (hp : plainName n = true) : finder .pinned files (parseLibName n) = finder .repaired files (parseLibName n) := by
+  have hv : validParts (parseLibName n).libPath = true := by rw [validity_test_is_plain_name n hc]; exact hp
+  unfold finder
+  rw [hc]
+  dsimp only
+  unfold resolveParts
+  dsimp only
+  rw [hv]
+  simp only [if_true]
+  cases ha : addZn (parseLibName n).libPath with
+  | none => rfl
+  | some q =>
+    dsimp only
+    have hne : (parseLibName n).libPath ≠ [] := by intro h; rw [h] at ha; simp [addZn] at ha
+    rw [addZn_eq_withExt _ hne] at ha
+    injection ha with ha
+    rw [← ha, cleanPath_valid _ hv]
 
 /-- `@L` is a library name; an import of it consults the registered libraries under exactly that name -/
 theorem path_resolution_library (l : Name) :
@@ -64,6 +156,34 @@ theorem path_resolution_library (l : Name) :
 example : resolve [0x76EE, 0x2D, 0x5185, 0x2D, 0x4E19] = .file [[0x76EE], [0x5185], [0x4E19, 0x2E, 0x7A, 0x6E]] := by
   decide
 example : joinDash [[0x76EE], [0x5185], [0x4E19]] = [0x76EE, 0x2D, 0x5185, 0x2D, 0x4E19] := by decide
+example : resolveName .repaired [0x76EE, 0x2D, 0x5185, 0x2D, 0x4E19] = some [[0x76EE], [0x5185], [0x4E19, 0x2E, 0x7A, 0x6E]] := by
+  decide
+-- 甲--乙, 甲-.-乙, 丙-..-甲-乙, 甲/乙, 甲\乙, ..-外, the empty name: no module
+example : resolve [0x7532, 0x2D, 0x2D, 0x4E59] = .nothing := by decide
+example : resolve [0x7532, 0x2D, 0x2E, 0x2D, 0x4E59] = .nothing := by decide
+example : resolve [0x4E19, 0x2D, 0x2E, 0x2E, 0x2D, 0x7532, 0x2D, 0x4E59] = .nothing := by decide
+example : resolve [0x7532, 0x2F, 0x4E59] = .nothing := by decide
+example : resolve [0x7532, 0x5C, 0x4E59] = .nothing := by decide
+example : resolve [0x2E, 0x2E, 0x2D, 0x5916] = .nothing := by decide
+example : resolve [] = .nothing := by decide
+-- a dot inside a part is fine: 甲.乙 ↦ 甲.乙.zn, ..甲 ↦ ..甲.zn
+example : resolve [0x7532, 0x2E, 0x4E59] = .file [[0x7532, 0x2E, 0x4E59, 0x2E, 0x7A, 0x6E]] := by decide
+example : resolve [0x2E, 0x2E, 0x7532] = .file [[0x2E, 0x2E, 0x7532, 0x2E, 0x7A, 0x6E]] := by decide
+
+/-! ### the pinned finder (before fix 420e70b): the negations, on the witnesses of the finding -/
+
+/-- 甲-乙, 甲--乙, 甲-.-乙, 丙-..-甲-乙, 甲/乙 are five names of the one file 甲/乙.zn: the map name ↦ path of the pinned tree
+    is not injective -/
+theorem pinned_names_share_a_file :
+    resolveName .pinned [0x7532, 0x2D, 0x4E59] = some [[0x7532], [0x4E59, 0x2E, 0x7A, 0x6E]] ∧
+    resolveName .pinned [0x7532, 0x2D, 0x2D, 0x4E59] = some [[0x7532], [0x4E59, 0x2E, 0x7A, 0x6E]] ∧
+    resolveName .pinned [0x7532, 0x2D, 0x2E, 0x2D, 0x4E59] = some [[0x7532], [0x4E59, 0x2E, 0x7A, 0x6E]] ∧
+    resolveName .pinned [0x4E19, 0x2D, 0x2E, 0x2E, 0x2D, 0x7532, 0x2D, 0x4E59] = some [[0x7532], [0x4E59, 0x2E, 0x7A, 0x6E]] ∧
+    resolveName .pinned [0x7532, 0x2F, 0x4E59] = some [[0x7532], [0x4E59, 0x2E, 0x7A, 0x6E]] := by decide
+
+/-- ..-外 is the file 外.zn in the PARENT of the main file's directory -/
+theorem pinned_path_leaves_root :
+    resolveName .pinned [0x2E, 0x2E, 0x2D, 0x5916] = some [dotdot, [0x5916, 0x2E, 0x7A, 0x6E]] := by decide
 
 /-! ## the cycle check -/
 
@@ -101,13 +221,14 @@ example : checkCircular [(0, 1), (0, 2), (1, 3), (2, 3)] [2, 0, 3, 1] = some fal
 
 /-! ## loading -/
 
-/-- number of times the body of module `m` was started -/
+/-- number of times the body of module `m` (one entry of the module registry, i.e. one NAME) was started -/
 def bodyStarts (log : List Ev) (m : Nat) : Nat := log.count (Ev.body m)
 
-/-- Each module body runs at most once per program run, however many modules import it — whether the run
-    completes or fails. -/
-theorem body_runs_at_most_once (O : Oracle) (hO : OracleOK O) (files : Files) (libs : Libs) (callFuel : Nat)
-    (mainPath : Path) (m : Nat) : bodyStarts (run O files libs callFuel mainPath).vm.log m ≤ 1 := by
+/-- Each registered module's body runs at most once per program run, however many modules import it — whether the run
+    completes or fails.  (This was `body_runs_at_most_once` before the finding: it is about NAMES, and it also holds for
+    the pinned finder, where one file has several names.) -/
+theorem module_body_runs_at_most_once (O : Oracle) (hO : OracleOK O) (files : Files) (libs : Libs) (callFuel : Nat)
+    (mainPath : Path) (m : Nat) : bodyStarts (run .repaired O files libs callFuel mainPath).vm.log m ≤ 1 := by
   unfold bodyStarts run
   cases hm : assoc mainPath files with
   | none => simp [VM.init]
@@ -116,26 +237,36 @@ theorem body_runs_at_most_once (O : Oracle) (hO : OracleOK O) (files : Files) (l
     have h := runWith_spec (files := files) (mainSrc := src) (O := O) (libs := libs) (lf := loadFuelFor files)
       (cf := callFuel) hO
     rw [count_body_eq]
-    cases hr : runWith O files libs (loadFuelFor files) callFuel src with
+    cases hr : runWith .repaired O files libs (loadFuelFor files) callFuel src with
     | ok vm => rw [hr] at h; exact List.nodup_iff_count.1 h.1.bodies m
     | err e vm => rw [hr] at h; exact List.nodup_iff_count.1 h.1.bodies m
+
+/-- Each module body runs at most once per program run, however many modules import it and under whatever names —
+    whether the run completes or fails: for every file table, import graph and FILE `p` (a path below the main file's
+    directory), the number of body starts of modules that execute `p` (`fileOfModule`: the main file for the main
+    module, the resolved path of its name for any other) is at most one.  This includes the main file, which a module
+    may name (导入“主” inside 主.zn): that import never completes. -/
+theorem body_runs_at_most_once (O : Oracle) (hO : OracleOK O) (files : Files) (libs : Libs) (callFuel : Nat)
+    (mainPath : Path) (p : Path) :
+    fileBodyStarts .repaired mainPath (run .repaired O files libs callFuel mainPath).vm p ≤ 1 :=
+  file_body_once hO files libs callFuel mainPath p
 
 /-- When a module's own statements start, every module named by its import statements has already been loaded
     completely (its `done` event is earlier in the log). -/
 theorem imports_before_body (O : Oracle) (hO : OracleOK O) (files : Files) (libs : Libs) (callFuel : Nat)
     (mainPath : Path) (mainSrc : ModuleSrc) (hmain : assoc mainPath files = some mainSrc)
     (later earlier : List Ev) (m : Nat)
-    (hlog : (run O files libs callFuel mainPath).vm.log = later ++ Ev.body m :: earlier)
-    (nm : Name) (src : ModuleSrc) (hname : (namesOf (run O files libs callFuel mainPath).vm)[m]? = some nm)
+    (hlog : (run .repaired O files libs callFuel mainPath).vm.log = later ++ Ev.body m :: earlier)
+    (nm : Name) (src : ModuleSrc) (hname : (namesOf (run .repaired O files libs callFuel mainPath).vm)[m]? = some nm)
     (hsrc : msrc files mainSrc nm = some src) (imp : Imp) (himp : imp ∈ src.imports)
     (hc : (parseLibName imp.name).libType = .custom) :
-    ∃ id, assoc imp.name (run O files libs callFuel mainPath).vm.nameMap = some id ∧ Ev.done id ∈ earlier := by
+    ∃ id, assoc imp.name (run .repaired O files libs callFuel mainPath).vm.nameMap = some id ∧ Ev.done id ∈ earlier := by
   unfold run at hlog hname ⊢
   rw [hmain] at hlog hname ⊢
   dsimp only at hlog hname ⊢
   have h := runWith_spec (files := files) (mainSrc := mainSrc) (O := O) (libs := libs) (lf := loadFuelFor files)
     (cf := callFuel) hO
-  cases hr : runWith O files libs (loadFuelFor files) callFuel mainSrc with
+  cases hr : runWith .repaired O files libs (loadFuelFor files) callFuel mainSrc with
   | ok vm =>
     rw [hr] at h hlog hname
     obtain ⟨id, h1, h2, _⟩ := h.1.before later m earlier hlog nm src hname hsrc imp himp hc
@@ -149,9 +280,10 @@ theorem imports_before_body (O : Oracle) (hO : OracleOK O) (files : Files) (libs
 theorem missing_module_60 (O : Oracle) (files : Files) (libs : Libs) (callFuel fuel : Nat) (vm : VM) (imp : Imp)
     (hc : (parseLibName imp.name).libType = .custom) (hnew : vm.findModuleByName imp.name = none)
     (hmissing : assoc (withExt (segments imp.name)) files = none) :
-    evalImport O libs (loadModule O files libs callFuel (fuel + 1)) vm imp = .err (.code 60) vm := by
-  have hf : finder files (parseLibName imp.name) = .notFound := by
+    evalImport O libs (loadModule .repaired O files libs callFuel (fuel + 1)) vm imp = .err (.code 60) vm := by
+  have hf : finder .repaired files (parseLibName imp.name) = .notFound := by
     rw [finder_custom files hc, hmissing]
+    cases plainName imp.name <;> rfl
   unfold evalImport
   dsimp only
   rw [hc]
@@ -160,6 +292,50 @@ theorem missing_module_60 (O : Oracle) (files : Files) (libs : Libs) (callFuel f
   dsimp only
   unfold loadModule
   rw [hf]
+
+/-- An import of a name with a part that is not a plain file name (empty, `.`, `..`, containing `/` or `\`) denotes no
+    module and is error 60 — for every file table (whatever files exist, nothing is looked up), nothing is allocated,
+    nothing runs. -/
+theorem invalid_name_is_60 (O : Oracle) (files : Files) (libs : Libs) (callFuel fuel : Nat) (vm : VM) (imp : Imp)
+    (hc : (parseLibName imp.name).libType = .custom) (hnew : vm.findModuleByName imp.name = none)
+    (hinv : plainName imp.name = false) :
+    resolve imp.name = .nothing ∧ resolveName .repaired imp.name = none ∧
+    evalImport O libs (loadModule .repaired O files libs callFuel (fuel + 1)) vm imp = .err (.code 60) vm := by
+  have hf : finder .repaired files (parseLibName imp.name) = .notFound := by
+    rw [finder_custom files hc, hinv]; rfl
+  refine ⟨by rw [resolve_custom hc, hinv]; rfl, by rw [resolveName_custom hc, hinv]; rfl, ?_⟩
+  unfold evalImport
+  dsimp only
+  rw [hc]
+  dsimp only
+  rw [hnew]
+  dsimp only
+  unfold loadModule
+  rw [hf]
+
+/-- … so every module that a run loaded (other than the main module and libraries) has a plain name -/
+theorem loaded_module_has_plain_name (O : Oracle) (hO : OracleOK O) (files : Files) (libs : Libs) (callFuel : Nat)
+    (mainPath : Path) (m : Nat) (nm : Name) (hdone : Ev.done m ∈ (run .repaired O files libs callFuel mainPath).vm.log)
+    (hname : (namesOf (run .repaired O files libs callFuel mainPath).vm)[m]? = some nm) :
+    nm = mainName ∨ plainName nm = true := by
+  unfold run at hdone hname
+  cases hm : assoc mainPath files with
+  | none => rw [hm] at hdone; simp [VM.init] at hdone
+  | some src =>
+    rw [hm] at hdone hname
+    dsimp only at hdone hname
+    have h := runWith_spec (files := files) (mainSrc := src) (O := O) (libs := libs) (lf := loadFuelFor files)
+      (cf := callFuel) hO
+    have hS : SInv files src (finish (runWith .repaired O files libs (loadFuelFor files) callFuel src)).vm := by
+      cases hr : runWith .repaired O files libs (loadFuelFor files) callFuel src with
+      | ok vm => rw [hr] at h; exact h.1
+      | err e vm => rw [hr] at h; exact h.1
+    by_cases hn : nm = mainName
+    · exact Or.inl hn
+    · right
+      obtain ⟨n', hn', _, s', hs'⟩ := hS.doneReach m hdone
+      rw [hname] at hn'; injection hn' with hn'; subst hn'
+      exact (msrc_plain hn hs').2.1
 
 /-- An import of a library that is not registered is error 64. -/
 theorem missing_library_64 (O : Oracle) (libs : Libs) (load : VM → LibNameInfo → Res (VM × Nat)) (vm : VM) (imp : Imp)
@@ -174,14 +350,14 @@ theorem missing_library_64 (O : Oracle) (libs : Libs) (load : VM → LibNameInfo
 /-- The loader itself never hangs: import nesting is bounded by the number of files, so the fuel `run` provides is
     never exhausted (only a runaway recursion of method calls inside a body can end a run with `callFuel`). -/
 theorem loader_terminates (O : Oracle) (hO : OracleOK O) (files : Files) (libs : Libs) (callFuel : Nat)
-    (mainPath : Path) : (run O files libs callFuel mainPath).err ≠ some .loadFuel := by
+    (mainPath : Path) : (run .repaired O files libs callFuel mainPath).err ≠ some .loadFuel := by
   unfold run
   cases hm : assoc mainPath files with
   | none => simp
   | some src =>
     dsimp only
     have h := runWith_nofuel (files := files) (mainSrc := src) (O := O) (libs := libs) (cf := callFuel) hO
-    cases hr : runWith O files libs (loadFuelFor files) callFuel src with
+    cases hr : runWith .repaired O files libs (loadFuelFor files) callFuel src with
     | ok vm => simp [finish]
     | err e vm =>
       rw [hr] at h
@@ -193,7 +369,7 @@ theorem loader_terminates (O : Oracle) (hO : OracleOK O) (files : Files) (libs :
 /-- A run that ends with error 63 has a cycle in the import relation reachable from the main module. -/
 theorem cycle_reported_sound (O : Oracle) (hO : OracleOK O) (files : Files) (libs : Libs) (callFuel : Nat)
     (mainPath : Path) (hres : NoReserved files)
-    (h63 : (run O files libs callFuel mainPath).err = some (.code 63)) : StaticCycle files mainPath := by
+    (h63 : (run .repaired O files libs callFuel mainPath).err = some (.code 63)) : StaticCycle files mainPath := by
   unfold run at h63
   cases hm : assoc mainPath files with
   | none => rw [hm] at h63; simp at h63
@@ -202,7 +378,7 @@ theorem cycle_reported_sound (O : Oracle) (hO : OracleOK O) (files : Files) (lib
     dsimp only at h63
     have h := runWith_spec (files := files) (mainSrc := src) (O := O) (libs := libs) (lf := loadFuelFor files)
       (cf := callFuel) hO
-    cases hr : runWith O files libs (loadFuelFor files) callFuel src with
+    cases hr : runWith .repaired O files libs (loadFuelFor files) callFuel src with
     | ok vm => rw [hr] at h63; simp [finish] at h63
     | err e vm =>
       rw [hr] at h h63
@@ -213,7 +389,7 @@ theorem cycle_reported_sound (O : Oracle) (hO : OracleOK O) (files : Files) (lib
     half-initialised modules. -/
 theorem cycle_never_silent (O : Oracle) (hO : OracleOK O) (files : Files) (libs : Libs) (callFuel : Nat)
     (mainPath : Path) (hres : NoReserved files) (hcyc : StaticCycle files mainPath) :
-    (run O files libs callFuel mainPath).err ≠ none := by
+    (run .repaired O files libs callFuel mainPath).err ≠ none := by
   unfold run
   cases hm : assoc mainPath files with
   | none => simp
@@ -221,7 +397,7 @@ theorem cycle_never_silent (O : Oracle) (hO : OracleOK O) (files : Files) (libs 
     dsimp only
     have h := runWith_spec (files := files) (mainSrc := src) (O := O) (libs := libs) (lf := loadFuelFor files)
       (cf := callFuel) hO
-    cases hr : runWith O files libs (loadFuelFor files) callFuel src with
+    cases hr : runWith .repaired O files libs (loadFuelFor files) callFuel src with
     | err e vm => simp [finish]
     | ok vm =>
       rw [hr] at h
@@ -232,9 +408,9 @@ theorem cycle_never_silent (O : Oracle) (hO : OracleOK O) (files : Files) (libs 
     redeclared name, a failing statement of a module body that runs before the cycle is closed). -/
 theorem cycle_reported (O : Oracle) (hO : OracleOK O) (files : Files) (libs : Libs) (callFuel : Nat)
     (mainPath : Path) (hres : NoReserved files)
-    (hother : (run O files libs callFuel mainPath).err = none ∨
-      (run O files libs callFuel mainPath).err = some (.code 63)) :
-    StaticCycle files mainPath ↔ (run O files libs callFuel mainPath).err = some (.code 63) := by
+    (hother : (run .repaired O files libs callFuel mainPath).err = none ∨
+      (run .repaired O files libs callFuel mainPath).err = some (.code 63)) :
+    StaticCycle files mainPath ↔ (run .repaired O files libs callFuel mainPath).err = some (.code 63) := by
   constructor
   · intro hc
     rcases hother with h | h
@@ -256,10 +432,10 @@ theorem module_source_agrees_with_spec (files : Files) (mainPath : Path) (mainSr
     registered names of the library). -/
 theorem exports_exactly_methods_and_types (O : Oracle) (hO : OracleOK O) (hρ : ExportOrderOK O) (files : Files)
     (libs : Libs) (callFuel : Nat) (mainPath : Path) (mainSrc : ModuleSrc) (hmain : assoc mainPath files = some mainSrc)
-    (hok : (run O files libs callFuel mainPath).err = none)
-    (M : Nat) (nm : Name) (src : ModuleSrc) (hdone : Ev.done M ∈ (run O files libs callFuel mainPath).vm.log)
-    (hname : (namesOf (run O files libs callFuel mainPath).vm)[M]? = some nm) (hsrc : msrc files mainSrc nm = some src) :
-    ∃ s, lookS (run O files libs callFuel mainPath).vm M = some s ∧
+    (hok : (run .repaired O files libs callFuel mainPath).err = none)
+    (M : Nat) (nm : Name) (src : ModuleSrc) (hdone : Ev.done M ∈ (run .repaired O files libs callFuel mainPath).vm.log)
+    (hname : (namesOf (run .repaired O files libs callFuel mainPath).vm)[M]? = some nm) (hsrc : msrc files mainSrc nm = some src) :
+    ∃ s, lookS (run .repaired O files libs callFuel mainPath).vm M = some s ∧
       ∀ n, (∃ y, y ∈ s.locals ∧ y.depth = 0 ∧ y.name = n) ↔
         ∃ imp, imp ∈ src.imports ∧ Brings files mainSrc libs imp n := by
   have hrun := run_ok hmain hok
@@ -278,10 +454,10 @@ theorem exports_exactly_methods_and_types (O : Oracle) (hO : OracleOK O) (hρ : 
     name the module imported is error 44. -/
 theorem imports_read_only (O : Oracle) (hO : OracleOK O) (hρ : ExportOrderOK O) (files : Files)
     (libs : Libs) (callFuel : Nat) (mainPath : Path) (mainSrc : ModuleSrc) (hmain : assoc mainPath files = some mainSrc)
-    (hok : (run O files libs callFuel mainPath).err = none)
-    (M : Nat) (nm : Name) (src : ModuleSrc) (hdone : Ev.done M ∈ (run O files libs callFuel mainPath).vm.log)
-    (hname : (namesOf (run O files libs callFuel mainPath).vm)[M]? = some nm) (hsrc : msrc files mainSrc nm = some src) :
-    ∃ s, lookS (run O files libs callFuel mainPath).vm M = some s ∧ (∀ y, y ∈ s.locals → y.isConst = true) ∧
+    (hok : (run .repaired O files libs callFuel mainPath).err = none)
+    (M : Nat) (nm : Name) (src : ModuleSrc) (hdone : Ev.done M ∈ (run .repaired O files libs callFuel mainPath).vm.log)
+    (hname : (namesOf (run .repaired O files libs callFuel mainPath).vm)[M]? = some nm) (hsrc : msrc files mainSrc nm = some src) :
+    ∃ s, lookS (run .repaired O files libs callFuel mainPath).vm M = some s ∧ (∀ y, y ∈ s.locals → y.isConst = true) ∧
       ∀ imp n, imp ∈ src.imports → Brings files mainSrc libs imp n → s.setValueCode n = some 44 := by
   have hrun := run_ok hmain hok
   have hA := runWith_spec (files := files) (mainSrc := mainSrc) (O := O) (libs := libs) (lf := loadFuelFor files)
@@ -317,16 +493,16 @@ theorem assign_to_constant_44 (callFuel : Nat) (vm : VM) (m : Nat) (s : Scope) (
     `H` does not define itself resolves to the definition in the exporting module, routed to that module. -/
 theorem imported_method_sees_home_module (O : Oracle) (hO : OracleOK O) (hρ : ExportOrderOK O) (files : Files)
     (libs : Libs) (callFuel : Nat) (mainPath : Path) (mainSrc : ModuleSrc) (hmain : assoc mainPath files = some mainSrc)
-    (hok : (run O files libs callFuel mainPath).err = none)
+    (hok : (run .repaired O files libs callFuel mainPath).err = none)
     (H : Nat) (hH0 : H ≠ 0) (nm : Name) (src : ModuleSrc)
-    (hdone : Ev.done H ∈ (run O files libs callFuel mainPath).vm.log)
-    (hname : (namesOf (run O files libs callFuel mainPath).vm)[H]? = some nm) (hsrc : msrc files mainSrc nm = some src) :
-    ∃ s, lookS (run O files libs callFuel mainPath).vm H = some s ∧
+    (hdone : Ev.done H ∈ (run .repaired O files libs callFuel mainPath).vm.log)
+    (hname : (namesOf (run .repaired O files libs callFuel mainPath).vm)[H]? = some nm) (hsrc : msrc files mainSrc nm = some src) :
+    ∃ s, lookS (run .repaired O files libs callFuel mainPath).vm H = some s ∧
       (∀ d, d ∈ defsOf src.body → s.getValueWithModuleID d.name = some (valOfDef d H, none)) ∧
       (∀ imp srcI d, imp ∈ src.imports → (parseLibName imp.name).libType = .custom →
         msrc files mainSrc imp.name = some srcI → d ∈ defsOf srcI.body →
         selected (exportNames srcI) imp.items d.name → d.name ∉ exportNames src →
-        ∃ home, assoc imp.name (run O files libs callFuel mainPath).vm.nameMap = some home ∧
+        ∃ home, assoc imp.name (run .repaired O files libs callFuel mainPath).vm.nameMap = some home ∧
           s.getValueWithModuleID d.name = some (valOfDef d home, some home)) := by
   have hrun := run_ok hmain hok
   have hA := runWith_spec (files := files) (mainSrc := mainSrc) (O := O) (libs := libs) (lf := loadFuelFor files)
@@ -352,7 +528,7 @@ theorem imported_method_sees_home_module (O : Oracle) (hO : OracleOK O) (hρ : E
     have hch := (mem_chosenOf hρ hex.nodup).2 ⟨hmem, hsel.2⟩
     have he : ((d.name, valOfDef d mid, mid) : Entry) ∈ IS :=
       (h2.mem_iff hρ _).2 ⟨imp, hi, mid, ex, hn, hex, hch, rfl⟩
-    have hns : d.name ∉ (((run O files libs callFuel mainPath).vm.exportsOf H).map (fun p => p.1)) := by
+    have hns : d.name ∉ (((run .repaired O files libs callFuel mainPath).vm.exportsOf H).map (fun p => p.1)) := by
       rw [hexp, List.map_map]
       exact hnot
     exact ⟨mid, hn, hH.imported hρ he hns⟩
@@ -404,41 +580,84 @@ theorem cyclic_noReserved : NoReserved cyclic := by
   rcases hp with ⟨_, rfl⟩ | ⟨_, rfl⟩ | ⟨_, rfl⟩ <;> simp at hi <;> subst hi <;> decide
 
 set_option maxRecDepth 100000 in
-theorem cyclic_63 : (run Oracle.default cyclic [] 8 pMain).err = some (.code 63) := by decide
+theorem cyclic_63 : (run .repaired Oracle.default cyclic [] 8 pMain).err = some (.code 63) := by decide
 
 -- the hypotheses of `cycle_reported` are satisfiable with either outcome
 example : StaticCycle cyclic pMain :=
   cycle_reported_sound Oracle.default (fun _ _ h => h) cyclic [] 8 pMain cyclic_noReserved cyclic_63
 
 set_option maxRecDepth 100000 in
-example : (run Oracle.default diamond [] 8 pMain).err = none ∧
-    (run Oracle.default diamond [] 8 pMain).trace = [4, 2, 3, 1] := by decide
+example : (run .repaired Oracle.default diamond [] 8 pMain).err = none ∧
+    (run .repaired Oracle.default diamond [] 8 pMain).trace = [4, 2, 3, 1] := by decide
 
 -- the body of 丙 runs once although two modules import it
 set_option maxRecDepth 100000 in
-example : bodyStarts (run Oracle.default diamond [] 8 pMain).vm.log 3 = 1 := by decide
+example : bodyStarts (run .repaired Oracle.default diamond [] 8 pMain).vm.log 3 = 1 := by decide
+set_option maxRecDepth 100000 in
+example : fileBodyStarts .repaired pMain (run .repaired Oracle.default diamond [] 8 pMain).vm [[0x76EE], zn nC] = 1 := by
+  decide
+
+/-- the witness of the finding: 主 imports 甲-乙 and 甲--乙; the table has 甲/乙.zn -/
+def alias : Files := [
+  (pMain, ⟨[⟨[0x7532, 0x2D, 0x4E59], []⟩, ⟨[0x7532, 0x2D, 0x2D, 0x4E59], []⟩], [.marker 1]⟩),
+  ([nA, zn nB], ⟨[], [.marker 2]⟩)]
+
+-- repaired: 甲-乙 is loaded (its body runs once), then 甲--乙 is error 60
+set_option maxRecDepth 100000 in
+theorem alias_repaired : (run .repaired Oracle.default alias [] 8 pMain).err = some (.code 60) ∧
+    (run .repaired Oracle.default alias [] 8 pMain).trace = [2] ∧
+    fileBodyStarts .repaired pMain (run .repaired Oracle.default alias [] 8 pMain).vm [nA, zn nB] = 1 := by decide
+
+-- pinned: the run completes and the body of the ONE file 甲/乙.zn ran twice, once per name (each of the two registered
+-- modules ran once: `module_body_runs_at_most_once` does not see it) — the negation of `body_runs_at_most_once`
+set_option maxRecDepth 100000 in
+theorem alias_pinned_runs_twice : (run .pinned Oracle.default alias [] 8 pMain).err = none ∧
+    (run .pinned Oracle.default alias [] 8 pMain).trace = [2, 2, 1] ∧
+    fileBodyStarts .pinned pMain (run .pinned Oracle.default alias [] 8 pMain).vm [nA, zn nB] = 2 ∧
+    bodyStarts (run .pinned Oracle.default alias [] 8 pMain).vm.log 1 = 1 ∧
+    bodyStarts (run .pinned Oracle.default alias [] 8 pMain).vm.log 2 = 1 := by decide
+
+/-- 主 imports ..-外; the table has 外.zn in the PARENT of the main file's directory -/
+def outside : Files := [
+  (pMain, ⟨[⟨[0x2E, 0x2E, 0x2D, 0x5916], []⟩], [.marker 1]⟩),
+  ([dotdot, zn [0x5916]], ⟨[], [.marker 2]⟩)]
+
+set_option maxRecDepth 100000 in
+theorem outside_repaired : (run .repaired Oracle.default outside [] 8 pMain).err = some (.code 60) ∧
+    (run .repaired Oracle.default outside [] 8 pMain).trace = [] := by decide
+
+set_option maxRecDepth 100000 in
+theorem outside_pinned_is_read : (run .pinned Oracle.default outside [] 8 pMain).err = none ∧
+    (run .pinned Oracle.default outside [] 8 pMain).trace = [2, 1] := by decide
+
+-- the main file named by an import (主.zn imports 主): the second module is allocated, its import of 主 closes a cycle,
+-- the body of 主.zn never runs twice (it does not run at all)
+set_option maxRecDepth 100000 in
+example : (run .repaired Oracle.default [(pMain, ⟨[⟨nMain, []⟩], [.marker 1]⟩)] [] 8 pMain).err = some (.code 63) ∧
+    fileBodyStarts .repaired pMain (run .repaired Oracle.default [(pMain, ⟨[⟨nMain, []⟩], [.marker 1]⟩)] [] 8 pMain).vm
+      pMain = 0 := by decide
 
 -- the imported method sees its home module's other method and type; the unlisted 甲辅 is not visible in 主
 set_option maxRecDepth 100000 in
-example : (run Oracle.default sibling [] 8 pMain).err = none ∧
-    (run Oracle.default sibling [] 8 pMain).trace = [6, 1, 3, 4, 5, 4, 2] := by decide
+example : (run .repaired Oracle.default sibling [] 8 pMain).err = none ∧
+    (run .repaired Oracle.default sibling [] 8 pMain).trace = [6, 1, 3, 4, 5, 4, 2] := by decide
 
 set_option maxRecDepth 100000 in
-example : (run Oracle.default
+example : (run .repaired Oracle.default
     [(pMain, ⟨[⟨nA, [fA]⟩], [.use (.call gA)]⟩), ([zn nA], ⟨[], [.defn ⟨fA, .method, 3, []⟩, .defn ⟨gA, .method, 4, []⟩]⟩)]
     [] 8 pMain).err = some (.code 42) := by decide
 
 -- read-only, missing module, missing library
 set_option maxRecDepth 100000 in
-example : (run Oracle.default
+example : (run .repaired Oracle.default
     [(pMain, ⟨[⟨nA, []⟩], [.marker 1, .assign fA]⟩), ([zn nA], ⟨[], [.defn ⟨fA, .method, 3, []⟩]⟩)]
     [] 8 pMain).err = some (.code 44) := by decide
 
 set_option maxRecDepth 100000 in
-example : (run Oracle.default [(pMain, ⟨[⟨nA, []⟩], [.marker 1]⟩)] [] 8 pMain).err = some (.code 60) := by decide
+example : (run .repaired Oracle.default [(pMain, ⟨[⟨nA, []⟩], [.marker 1]⟩)] [] 8 pMain).err = some (.code 60) := by decide
 
 set_option maxRecDepth 100000 in
-example : (run Oracle.default [(pMain, ⟨[⟨[0x40, 0x65E0], []⟩], [.marker 1]⟩)] [] 8 pMain).err = some (.code 64) := by
+example : (run .repaired Oracle.default [(pMain, ⟨[⟨[0x40, 0x65E0], []⟩], [.marker 1]⟩)] [] 8 pMain).err = some (.code 64) := by
   decide
 
 -- a library import: the listed registered name becomes a read-only name, the unlisted one does not exist
@@ -446,11 +665,11 @@ def jsonLib : Name := [0x40, 0x4A]
 def libsEx : Libs := [(jsonLib, [[0x89E3], [0x751F]])]
 
 set_option maxRecDepth 100000 in
-example : (run Oracle.default [(pMain, ⟨[⟨jsonLib, [[0x89E3]]⟩], [.marker 1, .assign [0x89E3]]⟩)] libsEx 8 pMain).err
+example : (run .repaired Oracle.default [(pMain, ⟨[⟨jsonLib, [[0x89E3]]⟩], [.marker 1, .assign [0x89E3]]⟩)] libsEx 8 pMain).err
     = some (.code 44) := by decide
 
 set_option maxRecDepth 100000 in
-example : (run Oracle.default [(pMain, ⟨[⟨jsonLib, [[0x89E3]]⟩], [.marker 1, .assign [0x751F]]⟩)] libsEx 8 pMain).err
+example : (run .repaired Oracle.default [(pMain, ⟨[⟨jsonLib, [[0x89E3]]⟩], [.marker 1, .assign [0x751F]]⟩)] libsEx 8 pMain).err
     = some (.code 42) := by decide
 
 end Examples
